@@ -82,8 +82,9 @@ def alpha(cfg, crate, rep):
             cs = calls_of(src)
             el = core(elem).r()
             found = "every unit of %s: %s" % (sorted(c.split("::")[-1] for c in cs), F.show(body).replace(el, "unit")[:200])
-            src_ok = places(src) == {"vec"} and any(c.endswith("%s>::from_be_bytes" % unit) for c in cs) and any(c.endswith("chunks_exact") for c in cs) \
-                and any(isinstance(core(a_[1]), Const) and core(a_[1]).v == k for c_, a_, n_, cd, f_ in I.calls if c_.endswith("chunks_exact") and len(a_) > 1)
+            src_ok = places(src) == {"vec"} and any(c.endswith("chunks_exact") for c in cs) \
+                and any(isinstance(core(a_[1]), Const) and core(a_[1]).v == k for c_, a_, n_, cd, f_ in I.calls if c_.endswith("chunks_exact") and len(a_) > 1) \
+                and big_endian_unit(I, src, elem, k)
             ats = F.atoms(body)
             if k == 2:
                 src_ok = src_ok and any(c.endswith("decode_utf16") for c in cs)
@@ -108,8 +109,25 @@ def alpha(cfg, crate, rep):
             else:
                 # acceptance of a unit  <=>  char::from_u32(unit) is Some
                 src_ok = src_ok  # the unit is the mapped element (u32::from_be_bytes of a 4-byte chunk)
-                if len(ats) == 1 and ats[0][0] == "some" and ats[0][1] in ("std::char::from_u32(%s)" % el, "std::char::methods::<impl char>::from_u32(%s)" % el):
-                    ok = src_ok and F.evalf(body, {ats[0]: True}) and not F.evalf(body, {ats[0]: False})
+                # "the unit is a Unicode scalar value": char::from_u32(unit) is Some  ==  char::try_from(unit) is Ok, where the
+                # unit is the chunk read big-endian (mapped before the test, or computed inside the predicate)
+                conv = [(c_, a_) for c_, a_, n_, cd, f_ in I.calls if (c_.endswith("char>::from_u32") or c_ == "std::char::from_u32" or "TryFrom<u32> for char>::try_from" in c_ or "char as std::convert::TryFrom<u32>" in c_) and a_]
+                if len(conv) == 1 and len(ats) == 1 and not src_ok:
+                    U = conv[0][1][0]
+                    ur = core(U).r()
+                    inner_ok = places(src) == {"vec"} and any(c.endswith("chunks_exact") for c in cs) \
+                        and any(isinstance(core(a_[1]), Const) and core(a_[1]).v == k for c_, a_, n_, cd, f_ in I.calls if c_.endswith("chunks_exact") and len(a_) > 1) \
+                        and big_endian_unit(I, U, U, k, direct=True)
+                    if inner_ok and ((ats[0][0] == "variant" and ats[0][1] == ur) or (ats[0][0] == "some" and ats[0][1].endswith("from_u32(%s)" % ur))):
+                        src_ok = True
+                        el = ur
+                        elem = U
+                scalar_ok = len(ats) == 1 and (
+                    (ats[0][0] == "some" and ats[0][1] in ("std::char::from_u32(%s)" % el, "std::char::methods::<impl char>::from_u32(%s)" % el)) or
+                    (ats[0][0] == "variant" and ats[0][2] in ("Ok", "Err") and ats[0][1] == el and (any(c.endswith("TryFrom<u32> for char>::try_from") or "char as std::convert::TryFrom<u32>" in c for c in calls_of(elem)) or bool(conv))))
+                if scalar_ok:
+                    pos = ats[0][0] == "some" or ats[0][2] == "Ok"
+                    ok = src_ok and F.evalf(body, {ats[0]: pos}) and not F.evalf(body, {ats[0]: not pos})
         text = ("BmpString admits exactly the UTF-16BE encodings of U+0000..=U+FFFE (every decode_utf16 item must be Ok(c) with c < 0xFFFF; lone/paired surrogates rejected)" if k == 2 else
                 "UniversalString admits exactly the UTF-32BE encodings of Unicode scalar values (char::from_u32 is Some for every unit)")
         rep.ob("C13.alpha", "%s|%s" % (cfg, ty), ok, text, found=found or [str(x)[:120] for x in terms])
@@ -119,6 +137,56 @@ def alpha(cfg, crate, rep):
             v = oks[0] if len(oks) == 1 else v
         stores = isinstance(v, StructV) and v.variant == "Ok" and places(v) == {"vec"} and not [r for r in roots(v) if r.startswith("op:")]
         rep.ob("C13.enc", "%s|%s|stores-input" % (cfg, fn), stores, "the accepted bytes are stored unchanged", found=v.r()[:120])
+
+
+def big_endian_unit(I, src, elem, k, direct=False):
+    """The unit tested for each k-byte chunk is the chunk read big-endian - `uN::from_be_bytes([c[0], ..])`, a shift-or
+    composition, ...: decided by substituting two byte patterns for the chunk and evaluating the unit expression."""
+    from interp import IndexV, OpV, ArrayV, TupleV, Sel, IterMapV
+
+    def subst(v, bytes_):
+        if isinstance(v, IndexV):
+            i = I.concrete(v.idx)
+            if isinstance(i, int) and 0 <= i < len(bytes_) and core(v.base).r().endswith("[]"):
+                return Const(bytes_[i])
+            return IndexV(subst(v.base, bytes_), subst(v.idx, bytes_))
+        if isinstance(v, Via):
+            return Via(v.name, subst(v.inner, bytes_), v.callee)
+        if isinstance(v, CallV):
+            return CallV(v.callee, [subst(a, bytes_) for a in v.args], v.node, getattr(v, "inst", None))
+        if isinstance(v, OpV):
+            return OpV(v.op, [subst(a, bytes_) for a in v.args])
+        if isinstance(v, ArrayV):
+            return ArrayV([subst(a, bytes_) for a in v.items])
+        if isinstance(v, Sel):
+            return Sel(subst(v.base, bytes_), v.sel)
+        return v
+    # the unit expression: walk from the tested element back to the value mapped over the chunks
+    cand = []
+
+    def find(v):
+        v0 = core(v)
+        if isinstance(v0, IterMapV):
+            cand.append(v0.result)
+            find(v0.src)
+        elif isinstance(v0, CallV):
+            for a in v0.args:
+                find(a)
+        elif isinstance(v0, Sel):
+            find(v0.base)
+    find(src)
+    find(elem)
+    if direct:
+        cand.append(src)
+    for u in cand:
+        good = True
+        for pat in ([0x12, 0x34, 0x56, 0x78][:k], [0xFE, 0x01, 0x80, 0x7F][:k]):
+            val = I.concrete(subst(u, pat))
+            if val != int.from_bytes(bytes(pat), "big"):
+                good = False
+        if good:
+            return True
+    return False
 
 
 def interp_param(name):
@@ -138,20 +206,25 @@ def enc(cfg, crate, rep):
         out = I.run_fn(fn)
         v = core(out["value"])
         ok_ret = isinstance(v, CallV) and v.callee == ctor
-        ext = [(t, k, p) for t, k, p, n, f, c in I.muts if f == fn and k.endswith("extend") or (f == fn and "Extend" in k)]
+        # the buffer handed to the validating byte-level constructor: built from the text's units, each written
+        # big-endian - by pushing / extending in a loop, for_each, flat_map + collect ... (provenance of the argument)
         ok_ext = False
         detail = None
-        if len(ext) == 1:
-            val = ext[0][2][0]
-            cs = calls_of(val)
-            detail = core(val).r()[:200]
-            ok_ext = any(c.endswith("%s>::to_be_bytes" % width) for c in cs) and any(c.endswith(unit_src) for c in cs) and places(val) == {"value"} and not any(c.endswith(("to_le_bytes", "to_ne_bytes")) for c in cs)
-            if ty == "UniversalString":
-                ok_ext = ok_ext and "as:u32" in core(val).r()
-        rep.ob("C13.enc", "%s|%s" % (cfg, fn), ok_ret and ok_ext, "text is converted unit by unit (%s -> %s::to_be_bytes) and then validated by the byte-level constructor" % (unit_src, width), found=detail)
         if ok_ret:
             arg = v.args[0]
-            rep.ob("C13.enc", "%s|%s|validates-built-bytes" % (cfg, fn), isinstance(arg, MutV) and any(o[0] == "call" and o[1] == "extend" for o in arg.ops), "the validated buffer is the one that was filled", found=core(arg).r()[:80])
+            cs = calls_of(arg)
+            rs = roots(arg)
+            detail = core(arg).r()[:200]
+            ok_ext = any(c.endswith("%s>::to_be_bytes" % width) for c in cs) and any(c.endswith(unit_src) for c in cs) and places(arg) <= {"value"} and "value" in places(arg) \
+                and not any(c.endswith(("to_le_bytes", "to_ne_bytes", "swap_bytes", "reverse_bits")) for c in cs) \
+                and not [r_ for r_ in rs if r_.startswith("op:") and r_ not in ("op:mutated", "op:index")]
+            if ty == "UniversalString":
+                # every char becomes its scalar value: `c as u32` or u32::from(c)
+                txt_ = arg.r() + " " + " ".join(x.r() for o in getattr(arg, "ops", []) for x in o[2:] if hasattr(x, "r"))
+                ok_ext = ok_ext and ("as:u32" in txt_ or any("From<char>" in c and "u32" in c for c in cs) or any("for u32>::from" in c or "u32 as std::convert::From<char>" in c for c in cs))
+        rep.ob("C13.enc", "%s|%s" % (cfg, fn), ok_ret and ok_ext, "text is converted unit by unit (%s -> %s::to_be_bytes) and then validated by the byte-level constructor" % (unit_src, width), found=detail)
+        if ok_ret:
+            rep.ob("C13.enc", "%s|%s|validates-built-bytes" % (cfg, fn), ok_ext, "the validated buffer is the one that was filled", found=detail)
     for ty in ("PrintableString", "Ia5String", "TeletexString"):
         fn = T % ty
         I = Interp(crate)
